@@ -56,6 +56,7 @@ type SetEntry struct {
 // Result of analysing one root (handler).
 type Result struct {
 	Root      *ssa.Function
+	Sites     map[ssa.Instruction]bool // instructions of Root that cause a write event on a store-derived object
 	Events    []Event
 	Asserts   []Assert
 	SetSites  []SetSite
@@ -84,6 +85,7 @@ type ctxKey struct {
 }
 
 type summary struct {
+	sites  map[ssa.Instruction]bool // instructions of this function that cause a write event (directly or in a callee)
 	ret    []uint8
 	events []Event
 	assert []Assert
@@ -147,7 +149,7 @@ func (e *Engine) Analyze(root *ssa.Function) *Result {
 		return r
 	}
 	s := e.analyze(root, nil, []string{})
-	res := &Result{Root: root, Events: s.events, Asserts: s.assert, SetSites: s.sets, Deletes: s.dels}
+	res := &Result{Root: root, Sites: s.sites, Events: s.events, Asserts: s.assert, SetSites: s.sets, Deletes: s.dels}
 	sort.SliceStable(res.Events, func(i, j int) bool { return res.Events[i].In.Pos() < res.Events[j].In.Pos() })
 	e.memo[root] = res
 	return res
@@ -195,7 +197,10 @@ func (e *Engine) analyze(fn *ssa.Function, pm []uint8, stack []string) *summary 
 		}
 		var evs []Event
 		seenEv := map[string]bool{}
+		sites := map[ssa.Instruction]bool{}
+		var curCall ssa.Instruction
 		addEv := func(in ssa.Instruction, kind string) {
+			sites[in] = true
 			ev := Event{Kind: kind, In: in, Fn: fn, Chain: []string{self}}
 			if k := evKey(ev); !seenEv[k] {
 				seenEv[k] = true
@@ -203,6 +208,9 @@ func (e *Engine) analyze(fn *ssa.Function, pm []uint8, stack []string) *summary 
 			}
 		}
 		addEvs := func(more []Event) {
+			if len(more) > 0 && curCall != nil {
+				sites[curCall] = true
+			}
 			for _, ev := range more {
 				if k := evKey(ev); !seenEv[k] {
 					seenEv[k] = true
@@ -401,13 +409,15 @@ func (e *Engine) analyze(fn *ssa.Function, pm []uint8, stack []string) *summary 
 						}
 						ret = joinVec(ret, r)
 					case ssa.CallInstruction:
+						curCall = in
 						e.call(fn, x, in, tm, get, bits, set, deref, addEv, addEvs, &asserts, seenTA, &sets, &dels, stack)
+						curCall = nil
 					}
 				}
 			}
 		}
 		same := fmt.Sprint(s.ret) == fmt.Sprint(ret) && len(s.events) == len(evs) && len(s.assert) == len(asserts)
-		s.ret, s.events, s.assert, s.sets, s.dels = ret, evs, asserts, sets, dels
+		s.ret, s.events, s.assert, s.sets, s.dels, s.sites = ret, evs, asserts, sets, dels, sites
 		if same && iter > 0 {
 			break
 		}
